@@ -302,8 +302,11 @@ def coq_show(workdir: pathlib.Path, name: str, header: str, terms: Sequence[str]
 def load_findings(prop: str) -> list[dict]:
     path = ROOT / 'known_findings.json'
     found = json.loads(path.read_text()).get('findings', []) if path.exists() else []
-    for frag in sorted((ROOT / 'findings.d').glob('*.json')):   # fragments awaiting merge into the main file
-        found.append(json.loads(frag.read_text()))
+    have = {f.get('id') for f in found}
+    for frag in sorted((ROOT / 'findings.d').glob('*.json')):   # development: fragments not yet merged by tools/mkfindings.py
+        f = json.loads(frag.read_text())
+        if f.get('id') not in have:
+            found.append(f)
     return [f for f in found if f.get('property') == prop or prop in f.get('also_properties', [])]
 
 
